@@ -1,7 +1,9 @@
 package otto
 
 import (
+	"fmt"
 	"reflect"
+	"strconv"
 )
 
 func (rt *runtime) newGoMapObject(value reflect.Value) *object {
@@ -30,11 +32,34 @@ func newGoMapObject(value reflect.Value) *goMapObject {
 }
 
 func (o goMapObject) toKey(name string) reflect.Value {
-	reflectValue, err := stringToReflectValue(name, o.keyType.Kind())
+	reflectValue, err := o.keyOf(name)
 	if err != nil {
 		panic(reflectConversionError(err))
 	}
 	return reflectValue
+}
+
+// keyOf returns the key a property name denotes: the key whose canonical text
+// the name is ("010", "0x10", "+8" are not names of integer keys, "1" and "t"
+// not names of boolean keys), as a value of the map's key type.
+func (o goMapObject) keyOf(name string) (reflect.Value, error) {
+	key, err := stringToReflectValue(name, o.keyType.Kind())
+	if err != nil {
+		return reflect.Value{}, err
+	}
+	canonical := name
+	switch o.keyType.Kind() {
+	case reflect.Int, reflect.Int8, reflect.Int16, reflect.Int32, reflect.Int64:
+		canonical = strconv.FormatInt(key.Int(), 10)
+	case reflect.Uint, reflect.Uint8, reflect.Uint16, reflect.Uint32, reflect.Uint64:
+		canonical = strconv.FormatUint(key.Uint(), 10)
+	case reflect.Bool:
+		canonical = strconv.FormatBool(key.Bool())
+	}
+	if canonical != name {
+		return reflect.Value{}, fmt.Errorf("TypeError: %q is not a key of %v", name, o.value.Type())
+	}
+	return key.Convert(o.keyType), nil
 }
 
 func (o goMapObject) toValue(value Value) reflect.Value {
@@ -56,7 +81,7 @@ func goMapGetOwnProperty(obj *object, name string) *property {
 	// being possible to represent as a string, 2) being possible to reconstruct
 	// from a string, and 3) having a meaningful failure case in this context
 	// other than "key does not exist"
-	key, err := stringToReflectValue(name, goObj.keyType.Kind())
+	key, err := goObj.keyOf(name)
 	if err != nil {
 		return nil
 	}
